@@ -47,19 +47,22 @@ def make_tempo(counter=None):
     return oqupy.Tempo(sysm, _bath, _par, _rho, 0.0)
 
 
-def make_mf(counter=None, where="field"):
-    def ham(t, a):
-        if counter and where == "ham":
-            counter.tick()
-        return 0.4 * oqupy.operators.sigma("x") + 0.1 * (a.real) * oqupy.operators.sigma("z")
+def make_mf(counter=None, where="field", species=1):
+    """where: which user callable ticks the failure counter: 'field' (field_eom), 'ham<k>' (Hamiltonian of species k)"""
+    def mk_ham(k):
+        def ham(t, a):
+            if counter and where == "ham%d" % k:
+                counter.tick()
+            return (0.4 + 0.1 * k) * oqupy.operators.sigma("x") + 0.1 * (a.real) * oqupy.operators.sigma("z") + 0.05 * k * t * oqupy.operators.sigma("y")
+        return ham
 
     def eom(t, states, a):
         if counter and where == "field":
             counter.tick()
-        return -0.2 * a + 0.1 * np.trace(states[0] @ oqupy.operators.sigma("z")) + 0.05 * t
-    s = oqupy.TimeDependentSystemWithField(ham)
-    mfs = oqupy.MeanFieldSystem([s], field_eom=eom)
-    return oqupy.MeanFieldTempo(mfs, [_bath], _par, [_rho], 0.3 + 0j, 0.0)
+        return -0.2 * a + 0.1 * sum(np.trace(x @ oqupy.operators.sigma("z")) for x in states) + 0.05 * t
+    ss = [oqupy.TimeDependentSystemWithField(mk_ham(k)) for k in range(species)]
+    mfs = oqupy.MeanFieldSystem(ss, field_eom=eom)
+    return oqupy.MeanFieldTempo(mfs, [_bath] * species, _par, [_rho] * species, 0.3 + 0j, 0.0)
 
 
 def make_tebd(start_mps=None, start_step=0, start_time=0.0):
@@ -218,22 +221,34 @@ def run(chk):
 
     # ---- transient failure of a user callable at every evaluation index --------------------
     T = 3
-    for kind, maker in (("tempo", None), ("meanfield", None)):
+
+    def mf_result(obj):
+        d = obj.get_dynamics()
+        labels = [int(round(x / DT)) for x in d.times]
+        states = [np.append(np.concatenate([np.array(sd.states[i]).reshape(-1) for sd in d.system_dynamics]), d.fields[i]) for i in range(len(d.times))]
+        return labels, states
+
+    scenarios = [("tempo", None, 1), ("meanfield", "field", 1), ("meanfield", "ham0", 2), ("meanfield", "ham1", 2), ("meanfield", "field", 2)]
+    for kind, where, species in scenarios:
+        mk = (lambda c: make_tempo(c)) if kind == "tempo" else (lambda c, where=where, species=species: make_mf(c, where, species))
         probe = Counter()
-        if kind == "tempo":
-            obj = make_tempo(probe)
-        else:
-            obj = make_mf(probe, "field")
+        obj = mk(probe)
         probe.armed = True
         quiet(obj.compute, T * DT, progress_type="silent")
         n_eval = probe.n
-        rl, rs = ref[(kind, T)]
-        for j in range(1, n_eval + 1):
+        if kind == "tempo":
+            rl, rs = ref[(kind, T)]
+        else:
+            rl, rs = mf_result(obj)
+        idx = list(range(1, n_eval + 1))
+        if species > 1 and not thorough and len(idx) > 8:
+            idx = idx[:4] + rng.sample(idx[4:], 4)            # several species: sampled in the quick tier
+        for j in idx:
             c = Counter(fail_at=j)
-            obj = make_tempo(c) if kind == "tempo" else make_mf(c, "field")
+            obj = mk(c)
             c.armed = True
             chk.search_cases += 1
-            info = {"driver": kind, "fail_at_evaluation": j, "of": n_eval}
+            info = {"driver": kind, "failing_callable": where or "hamiltonian", "species": species, "fail_at_evaluation": j, "of": n_eval}
             try:
                 quiet(obj.compute, T * DT, progress_type="silent")
                 chk.disagree("failure injection", f"{kind}: no exception at evaluation {j}")
@@ -242,22 +257,23 @@ def run(chk):
                 pass
             try:
                 quiet(obj.compute, T * DT, progress_type="silent")
-                d = obj.get_dynamics()
-                labels = [int(round(x / DT)) for x in d.times]
                 if kind == "tempo":
-                    states = [np.array(s) for s in d.states]
+                    d = obj.get_dynamics()
+                    labels, states = [int(round(x / DT)) for x in d.times], [np.array(x) for x in d.states]
                 else:
-                    states = [np.append(np.array(s).reshape(-1), f) for s, f in zip(d.system_dynamics[0].states, d.fields)]
+                    labels, states = mf_result(obj)
                 outcome = "same" if labels == rl and same(states, rs) else "different"
             except Exception as ex:
                 outcome = "fails again: " + repr(ex)[:80]
-            chk.count(f"{kind}_retry_{outcome.split(':')[0]}")
-            chk.case(dict(info, outcome=outcome), (kind, "fail", j))
+            chk.count(f"{kind}_{where or 'ham'}_retry_{outcome.split(':')[0]}")
+            chk.case(dict(info, outcome=outcome), (kind, where, species, "fail", j))
             if outcome == "different":
-                # mean-field: the Runge-Kutta stages evaluate the field equation after the networks advanced
-                late = kind == "meanfield"
+                # recorded finding: the Runge-Kutta stages evaluate the FIELD equation after the networks advanced;
+                # a failing Hamiltonian / rate callable must leave the object unchanged
+                late = kind == "meanfield" and where == "field"
                 chk.fail("meanfield-failure-after-advance" if late else "retry-differs",
-                         f"{kind}: a user callable raises at its evaluation {j}; the repeated compute() silently returns different dynamics", info)
+                         f"{kind}: the user callable '{where or 'hamiltonian'}' raises at its evaluation {j} ({species} species); the repeated compute() "
+                         "silently returns different dynamics", info)
 
     vals, errs = run_cases("C14", HEADER, exprs)
     for e in errs:
